@@ -180,7 +180,7 @@ Proof. exact @series_getint_spec. Qed.
 
 (* during(scalar epoch [s0, p) inside the series): the data returned are exactly the data at the
    positions whose time satisfies s0 <= t_k < p, in order; t0 of the result = the epoch's offset
-   (as coded), in the series' unit *)
+   (as coded), its sampling interval = the series' (exact since fix 237b5b4), in the series' unit *)
 Theorem C03_series_during_data : forall A (s : series A) s0 p off eu,
   axis_guard (s_t0 s) (s_dt s) (length (s_data s)) -> in62 s0 = true -> in62 p = true ->
   let lo := s_t0 s in let hi := s_t0 s + Z.of_nat (length (s_data s)) * s_dt s in
@@ -188,7 +188,7 @@ Theorem C03_series_during_data : forall A (s : series A) s0 p off eu,
   series_during s (mk_epochs [s0] [p] true off eu) =
   XOk (mk_dout (DOne (map snd (filter (fun tx => in_epoch s0 p (fst tx))
                                       (combine (u_samples (series_time s)) (s_data s)))))
-               (head_ps off) (s_unit s)).
+               (head_ps off) (s_dt s) (s_unit s)).
 Proof. exact @series_during_scalar. Qed.
 Print Assumptions C03_series_during_data.
 Theorem C03_series_during_outside_refused : forall A (s : series A) s0 p off eu,
@@ -204,7 +204,7 @@ Theorem C03_series_during_rows_data : forall A (s : series A) e r,
   axis_guard (s_t0 s) (s_dt s) (length (s_data s)) ->
   Forall (fun x => in62 x = true) (e_start e) -> Forall (fun x => in62 x = true) (e_stop e) ->
   e_scalar e = false -> series_during s e = XOk r ->
-  d_t0 r = head_ps (e_offset e) /\ d_unit r = s_unit s /\
+  d_t0 r = head_ps (e_offset e) /\ d_dt r = s_dt s /\ d_unit r = s_unit s /\
   exists rows, d_sel r = DRows rows /\ all_same_len rows = true /\
     Forall2 (fun ep row => exists s0 p, e_start ep = [s0] /\ e_stop ep = [p] /\
                row = map snd (filter (fun tx => in_epoch s0 p (fst tx)) (combine (u_samples (series_time s)) (s_data s))))
@@ -307,9 +307,9 @@ Definition ex_series : series (list Z) :=
 Example C03_ex_series :
   axis_guard (s_t0 ex_series) (s_dt ex_series) (length (s_data ex_series))
   /\ series_during ex_series (mk_epochs [-1] [20] true (mk_tarr [-5] Uns true) Uns)
-     = XOk (mk_dout (DOne [[1; 11]; [2; 12]; [3; 13]]) (-5) Ups)
+     = XOk (mk_dout (DOne [[1; 11]; [2; 12]; [3; 13]]) (-5) 7 Ups)
   /\ series_during ex_series (mk_epochs [-7; 0] [1; 8] false (mk_tarr [3] Ups true) Ups)
-     = XOk (mk_dout (DRows [[[0; 10]; [1; 11]]; [[1; 11]; [2; 12]]]) 3 Ups)
+     = XOk (mk_dout (DRows [[[0; 10]; [1; 11]]; [[1; 11]; [2; 12]]]) 3 7 Ups)
   /\ series_at ex_series (DInts true [6]) = XOk (SOne [1; 11]).
 Proof. split; [repeat split; reflexivity|]. repeat split; vm_compute; reflexivity. Qed.
 Definition ex_events : events (list Z) :=
